@@ -789,6 +789,71 @@ pub fn cxsplit_pair(kmax: i64, rng: &mut Rng) -> (Vec<(Vec<P>, Vec<Vec<P>>)>, Ve
     }
 }
 
+/// family "tshare": a vertex of one part touching the interior of an edge that is SHARED (collinear,
+/// overlapping) between the two operands. X = a rectangle R with a long side E; a small triangle T whose
+/// apex lies in the interior of E from outside R - T is a second part of X (then two parts of one operand
+/// touch vertex-on-edge) or a part of Y; Y = a rectangle with one side on the line of E, overlapping E in
+/// part, in full or beyond an end (on the side of E where it does not overlap a part of its own operand),
+/// sometimes with a second rectangle. Edges at multiples of 45 degrees: every meeting point is a lattice
+/// point. One of the 8 lattice symmetries is applied, so E is horizontal or vertical, the touch comes from
+/// below, above, the left or the right, and either sweep orientation occurs.
+pub fn tshare_pair(rng: &mut Rng) -> (Vec<(Vec<P>, Vec<Vec<P>>)>, Vec<(Vec<P>, Vec<Vec<P>>)>) {
+    loop {
+        let (l, h) = (rng.range(4, 10), rng.range(1, 4));
+        let rect = |x0: i64, y0: i64, x1: i64, y1: i64| -> Vec<P> { vec![(x0, y0), (x1, y0), (x1, y1), (x0, y1)] };
+        let r = rect(0, 0, l, h); // E = its bottom side, y = 0
+        let p = rng.range(1, l - 1);
+        let k = rng.range(1, 3);
+        // apex (p, 0), body below E
+        let t: Vec<P> = match rng.below(4) {
+            0 => vec![(p, 0), (p - k, -k), (p + k, -k)],
+            1 => vec![(p, 0), (p, -k), (p + k, -k)],
+            2 => vec![(p, 0), (p - k, -k), (p, -k)],
+            _ => vec![(p, 0), (p - k, -2 * k), (p + k, -2 * k)],
+        };
+        if area2(&t) <= 0 {
+            continue;
+        }
+        let t_in_x = rng.chance(2, 3);
+        let (s0, s1) = (rng.range(-2, l - 1), rng.range(1, l + 2));
+        if s0 >= s1 || s1 <= 0 || s0 >= l {
+            continue;
+        }
+        let kk = rng.range(1, 4);
+        // Y's rectangle on the line of E: below it (it may overlap T when T belongs to X), or above it (inside R)
+        let below = if t_in_x { rng.chance(1, 2) } else { false };
+        let yr = if below { rect(s0, -kk, s1, 0) } else { rect(s0, 0, s1, kk) };
+        let mut x = vec![(r, vec![])];
+        let mut y = vec![(yr, vec![])];
+        if t_in_x {
+            x.push((t, vec![]));
+        } else {
+            y.push((t, vec![]));
+        }
+        if rng.chance(1, 3) {
+            // a second rectangle of Y further along the line of E, beyond R (disjoint from Y's first one)
+            let g = rng.range(1, 2);
+            let x0 = s1.max(l) + g;
+            y.push((rect(x0, -1, x0 + 2, 1), vec![]));
+        }
+        let tsym = rng.below(8) as u32;
+        let tf = |polys: Vec<(Vec<P>, Vec<Vec<P>>)>| -> Vec<(Vec<P>, Vec<Vec<P>>)> {
+            polys
+                .into_iter()
+                .map(|(e, hs)| {
+                    // doubled: the edges of slope 2 of the steep triangle meet the lattice lines of the rectangles in lattice points
+                    let mut e2: Vec<P> = e.iter().map(|q| sym(tsym, (2 * q.0, 2 * q.1))).collect();
+                    if area2(&e2) < 0 {
+                        e2.reverse();
+                    }
+                    (e2, hs)
+                })
+                .collect()
+        };
+        return (tf(x), tf(y));
+    }
+}
+
 /// scale two simple polygons by the least common denominator of all their pairwise meeting points
 /// (None if that needs more than the 2^12 domain allows)
 fn scale_to_integral(a: &[P], b: &[P], extent: i64) -> Option<(Vec<P>, Vec<P>)> {
@@ -838,6 +903,24 @@ pub fn hang_pair(rng: &mut Rng) -> (Vec<(Vec<P>, Vec<Vec<P>>)>, Vec<(Vec<P>, Vec
         let mut b = vec![p, q1, q2];
         if rng.chance(1, 3) {
             b.push((q2.0 + rng.range(1, 2), q2.1 + rng.range(0, 1)));
+        }
+        if rng.chance(1, 2) {
+            // CORNER PASS: the long edge runs from the upper left, above the box, down to the lower right and passes g units
+            // UNDER the lower left corner (0, 0) of A's box without touching A; the short edge leaves the outer vertex more
+            // steeply and stays above the box. Nothing of B lies between the long edge and the corner, so the corner's edges
+            // find that edge directly below them while the short edge is completely beyond the box.
+            let (u, v, g) = (rng.range(1, 3), rng.range(1, 4), rng.range(1, 2));
+            let k = (h + 2 + g + v - 1) / v + rng.range(0, 1); // k * v - g >= h + 2
+            let m = rng.range(1, 3);
+            let pp = (-k * u, k * v - g);
+            let qq2 = (m * u, -g - m * v);
+            // steeper than v / u, ending at least one unit above the box
+            let d = (v + u) / u + rng.range(0, 1);
+            let qq1 = (pp.0 + 1, pp.1 - d);
+            if qq1.1 <= h {
+                continue;
+            }
+            b = vec![pp, qq1, qq2];
         }
         if area2(&b) < 0 {
             b.reverse();
